@@ -10,9 +10,16 @@
 package c07
 
 import (
+	"context"
+	"errors"
 	"fmt"
+	"net"
 	"path/filepath"
+	"reflect"
 	"strings"
+	"time"
+
+	mail "github.com/wneessen/go-mail"
 
 	"verif/harness/dialx"
 	"verif/harness/hx"
@@ -110,13 +117,29 @@ func Run(r *hx.Run, replay []hx.Case) {
 	var cases []dialx.Case
 	var ids []string
 	if replay != nil {
-		cases, ids = dialx.FromReplay(r, replay)
+		var rest []hx.Case
+		for _, hc := range replay {
+			if hc.Kind == "cfg" && len(hc.Args) == 1 {
+				runCfg(r, pki, hc.ID, hc.Args[0])
+			} else {
+				rest = append(rest, hc)
+			}
+		}
+		cases, ids = dialx.FromReplay(r, rest)
 	} else {
 		cases = Table(r.Tier == "thorough")
 		for range cases {
 			ids = append(ids, r.NewID())
 		}
 		r.Notes["table_rows"] = len(cases)
+		seqs := cfgSequences()
+		r.Notes["config_paths"] = len(seqs)
+		for _, calls := range seqs {
+			if r.Expired() {
+				break
+			}
+			runCfg(r, pki, r.NewID(), calls)
+		}
 	}
 	nontriv := func(c dialx.Case) bool { return c.Auth != "NOAUTH" || c.Policy != "N" || c.SSL }
 	dialx.RunCases(r, pki, cases, ids, 32, nontriv, oracle)
@@ -210,4 +233,200 @@ func Table(thorough bool) []dialx.Case {
 		}
 	}
 	return out
+}
+
+// ---------------------------------------------------------------------------------------------
+// the configuration path: short sequences of the calls that decide TLS policy / port / fallback port / implicit TLS
+// (options and setters mixed: all options are applied by NewClient in order, the setters afterwards), applied to the
+// real client.  Observed: TLSPolicy(), ServerAddr() (public getters), the address of the second dial attempt (fallback
+// port; the first attempt is refused by the dial function), useSSL (no getter: read through reflection), and a real
+// DialAndSend of the configured client against a server that does not offer STARTTLS.
+
+type cfgCall struct {
+	tok    string
+	option mail.Option
+	setter func(c *mail.Client)
+	policy string // the policy this call names ("" = none)
+	ssl    string // the ssl flag this call names ("" = none)
+}
+
+func cfgAlphabet() (opts, sets []cfgCall) {
+	pols := []struct {
+		n string
+		p mail.TLSPolicy
+	}{{"M", mail.TLSMandatory}, {"O", mail.TLSOpportunistic}, {"N", mail.NoTLS}}
+	for _, q := range pols {
+		q := q
+		opts = append(opts, cfgCall{tok: "WP:" + q.n, option: mail.WithTLSPolicy(q.p), policy: q.n})
+		opts = append(opts, cfgCall{tok: "WQ:" + q.n, option: mail.WithTLSPortPolicy(q.p), policy: q.n})
+		sets = append(sets, cfgCall{tok: "SP:" + q.n, setter: func(c *mail.Client) { c.SetTLSPolicy(q.p) }, policy: q.n})
+		sets = append(sets, cfgCall{tok: "SQ:" + q.n, setter: func(c *mail.Client) { c.SetTLSPortPolicy(q.p) }, policy: q.n})
+	}
+	opts = append(opts, cfgCall{tok: "WS", option: mail.WithSSL(), ssl: "1"})
+	for _, fb := range []bool{false, true} {
+		fb := fb
+		opts = append(opts, cfgCall{tok: "WL:" + b01(fb), option: mail.WithSSLPort(fb), ssl: "1"})
+		for _, ssl := range []bool{false, true} {
+			ssl := ssl
+			sets = append(sets, cfgCall{tok: "SL:" + b01(ssl) + b01(fb), setter: func(c *mail.Client) { c.SetSSLPort(ssl, fb) }, ssl: b01(ssl)})
+		}
+	}
+	for _, ssl := range []bool{false, true} {
+		ssl := ssl
+		sets = append(sets, cfgCall{tok: "SS:" + b01(ssl), setter: func(c *mail.Client) { c.SetSSL(ssl) }, ssl: b01(ssl)})
+	}
+	for _, port := range []int{25, 2525} {
+		opts = append(opts, cfgCall{tok: fmt.Sprintf("WN:%d", port), option: mail.WithPort(port)})
+	}
+	return
+}
+
+func b01(x bool) string {
+	if x {
+		return "1"
+	}
+	return "0"
+}
+
+// cfgSequences: all sequences of length 1..3, options first
+func cfgSequences() []string {
+	opts, sets := cfgAlphabet()
+	var all []cfgCall
+	all = append(append(all, opts...), sets...)
+	isOpt := func(c cfgCall) bool { return c.option != nil }
+	var out []string
+	var rec func(prefix []cfgCall, n int)
+	rec = func(prefix []cfgCall, n int) {
+		if len(prefix) > 0 {
+			toks := make([]string, len(prefix))
+			for i, c := range prefix {
+				toks[i] = c.tok
+			}
+			out = append(out, strings.Join(toks, ","))
+		}
+		if n == 0 {
+			return
+		}
+		for _, c := range all {
+			if len(prefix) > 0 && isOpt(c) && !isOpt(prefix[len(prefix)-1]) {
+				continue // an option cannot follow a setter
+			}
+			rec(append(append([]cfgCall{}, prefix...), c), n-1)
+		}
+	}
+	rec(nil, 3)
+	return out
+}
+
+func runCfg(r *hx.Run, pki *dialx.PKI, id, calls string) {
+	opts, sets := cfgAlphabet()
+	byTok := map[string]cfgCall{}
+	for _, c := range append(opts, sets...) {
+		byTok[c.tok] = c
+	}
+	var seq []cfgCall
+	for _, t := range strings.Split(calls, ",") {
+		c, ok := byTok[t]
+		if !ok {
+			r.Fail(id, "bad-case", "unknown configuration call "+t)
+			return
+		}
+		seq = append(seq, c)
+	}
+	build := func(extra ...mail.Option) (*mail.Client, error) {
+		var os []mail.Option
+		for _, c := range seq {
+			if c.option != nil {
+				os = append(os, c.option)
+			}
+		}
+		os = append(os, mail.WithHELO(dialx.HeloName), mail.WithTimeout(3*time.Second))
+		os = append(os, extra...)
+		cl, err := mail.NewClient(dialx.OtherMem, os...)
+		if err != nil {
+			return nil, err
+		}
+		for _, c := range seq {
+			if c.setter != nil {
+				c.setter(cl)
+			}
+		}
+		return cl, nil
+	}
+	// (a) getters, and the dial addresses (every attempt refused)
+	var addrs []string
+	cl, err := build(mail.WithDialContextFunc(func(ctx context.Context, network, address string) (net.Conn, error) {
+		addrs = append(addrs, address)
+		return nil, errors.New("refused")
+	}))
+	if err != nil {
+		r.Fail(id, "harness-error", err.Error())
+		return
+	}
+	pol := map[string]string{"TLSMandatory": "M", "TLSOpportunistic": "O", "NoTLS": "N"}[cl.TLSPolicy()]
+	port := portOf(cl.ServerAddr())
+	_ = cl.DialWithContext(context.Background())
+	fb := 0
+	if len(addrs) >= 2 {
+		fb = portOf(addrs[1])
+	}
+	if len(addrs) >= 1 && portOf(addrs[0]) != port {
+		r.Fail(id, "dial-address-differs-from-ServerAddr", fmt.Sprintf("%s: ServerAddr %s, dialed %v", calls, cl.ServerAddr(), addrs))
+	}
+	ssl := "?"
+	if f := reflect.ValueOf(cl).Elem().FieldByName("useSSL"); f.IsValid() && f.Kind() == reflect.Bool {
+		ssl = b01(f.Bool())
+	}
+	// the specification, independently of the model: the last call that names a policy / an ssl flag decides
+	wantPol, wantSSL := "M", "0"
+	for _, c := range seq {
+		if c.policy != "" {
+			wantPol = c.policy
+		}
+		if c.ssl != "" {
+			wantSSL = c.ssl
+		}
+	}
+	if pol != wantPol {
+		r.Fail(id, "policy-in-force-differs-from-last-setting", fmt.Sprintf("%s: TLSPolicy() = %s, the last policy-setting call says %s", calls, cl.TLSPolicy(), wantPol))
+	}
+	if ssl != "?" && ssl != wantSSL {
+		r.Fail(id, "ssl-in-force-differs-from-last-setting", fmt.Sprintf("%s: useSSL = %s, the last ssl-setting call says %s", calls, ssl, wantSSL))
+	}
+	obs := fmt.Sprintf("policy=%s port=%d fb=%d ssl=%s", pol, port, fb, ssl)
+	// (b) the configured client really dials and sends against a server that does not offer STARTTLS
+	if ssl == "1" {
+		obs += " dial=-"
+	} else {
+		c := dialx.Case{Kind: "das", Policy: pol, Auth: "NOAUTH", Custom: "-", Host: dialx.OtherMem, Mute: -1,
+			Caps: []string{"8BITMIME"}, CapsTLS: []string{"8BITMIME"}, HS: "ok", Msgs: []int{1}, Fallback: fb != 0}
+		o, err := dialx.RunWith(c, pki, 3*time.Second, func(extra ...mail.Option) (*mail.Client, error) { return build(extra...) })
+		if err != nil {
+			r.Fail(id, "harness-error", err.Error())
+			return
+		}
+		obs += " dial=" + o.Observable(c)
+		if wantPol == "M" && strings.Contains(o.Srv, "MAIL/c") {
+			r.Fail(id, "mandatory-policy-lost-on-config-path", fmt.Sprintf("%s: the last policy-setting call says TLSMandatory, the server offers no STARTTLS, yet MAIL was sent in clear: %s", calls, o.Srv))
+		}
+		for _, l := range dialx.ClearLines(o.Clear) {
+			if wantPol == "M" {
+				switch verbOf(l) {
+				case "EHLO", "HELO", "STARTTLS", "QUIT":
+				default:
+					r.Fail(id, "mandatory-policy-lost-on-config-path", fmt.Sprintf("%s: %q in clear under a mandatory policy", calls, l))
+				}
+			}
+		}
+	}
+	r.Add(hx.Case{ID: id, Kind: "cfg", Args: []string{calls}}, obs, len(seq) > 1)
+	r.Dist["cfg-path-length:"+fmt.Sprint(len(seq))]++
+	r.Dist["cfg-effective:"+pol+"/ssl"+ssl]++
+}
+
+func portOf(addr string) int {
+	i := strings.LastIndex(addr, ":")
+	n := 0
+	fmt.Sscanf(addr[i+1:], "%d", &n)
+	return n
 }
